@@ -244,6 +244,9 @@ func TestVerifNetDriveScenario(t *testing.T) {
 	if name == "fastcommit0" {
 		cfg.honest = []bool{true, true, true, true}
 	}
+	if name == "stalecert" {
+		cfg.honest = []bool{false, true, false, false} // nodes 0, 2, 3 are played by the harness with their real keys
+	}
 	W, _ := cfg.W()
 	ndProto(W, cfg.T)
 	r := ndNewRun(t, cfg, nil)
@@ -264,6 +267,8 @@ func TestVerifNetDriveScenario(t *testing.T) {
 			scenFastVote(s, false)
 		case "fastcommit", "fastcommit0":
 			scenFastVote(s, true)
+		case "stalecert":
+			scenStaleCert(s)
 		default:
 			t.Fatalf("unknown scenario %s", name)
 		}
@@ -360,5 +365,32 @@ func scenFastVote(s *ndScen, commit bool) {
 	}
 	s.do("bv %d %d 1 %d %s %s", D, rnd, cert, v1, s.mask(A))
 	s.deliver(cert1) // A: cert quorum {A,B,D} of period 1 → commits v1 ≠ v
+	s.finish()
+}
+
+// scenStaleCert: a node that is two or more periods past period p (p ≥ 2) receives a VALID cert bundle of period p of its
+// current round.  bundleFresh lets every cert bundle of the round through, roundRouter.update garbage-collects the
+// period-p router it has just created (p+1 < player.Period, p > 1), and roundRouter.dispatch calls a method on the nil
+// child: nil dereference inside Service.mainLoop (found by the thorough tier, schedule 899 of seed 0).
+func scenStaleCert(s *ndScen) {
+	s.start()
+	rnd := s.r.start
+	X := 1
+	for p := 0; p < 4; p++ { // ⊥ next-quorums of periods 0..3 move X into period 4
+		for _, b := range []int{0, 2, 3} {
+			s.do("bv %d %d %d %d bot %s", b, rnd, p, next, s.mask(X))
+		}
+		s.deliver(func(m *ndMsg, in ndInfo) bool {
+			return in.kind == 'V' && m.dst == X && in.step == next && in.period == period(p)
+		})
+	}
+	v := s.valueOf(X, rnd)
+	for _, b := range []int{0, 2, 3} {
+		s.do("bv %d %d 2 %d %s %s", b, rnd, cert, v, s.mask())
+	}
+	s.do("bb 0 %d 2 %d %s %s", rnd, cert, v, s.mask(X))
+	s.r.note("SCENARIO stalecert: delivering a valid cert bundle of period 2 to node %d in period %d", X, s.r.nodes[X].period)
+	s.out.flush()
+	s.deliver(func(m *ndMsg, in ndInfo) bool { return in.kind == 'B' && m.dst == X })
 	s.finish()
 }
